@@ -1,3 +1,4 @@
+import NgoVerif.Proofs.C16heads
 import NgoVerif.Meta.Compose
 import NgoVerif.Meta.Meta2
 import NgoVerif.Meta.M4
@@ -46,5 +47,12 @@ premise under which `C06_aux_sound`/`C06_recursive_aux_sound_partial` apply to w
 theorem C06_order_aux_plain (st st' : Dep.DomState) (r : Dep.Req) (rs : List Stm)
     (h : Dep.runReq st r = (.ok rs, st')) : rs.all Proofs.C20heads.plainRule = true :=
   Proofs.C20heads.runReq_plain st st' r rs h
+
+/-- **projection keeps every head and adds only plain-headed auxiliary rules**: every statement of the result of the
+model of `ProjectionTranslator.execute` is a source statement verbatim, a source rule with the same head over another
+body, or a new rule whose head is a plain positive atom -/
+theorem C06_projection_heads_kept (prg : Prog) (inputs : List Pred) (out : Prog) (h : projection prg inputs = .ok out) :
+    ∀ s ∈ out, ∃ o ∈ prg, Proofs.C16heads.FromStm o s :=
+  Proofs.C16heads.projection_heads prg inputs out h
 
 end NgoVerif
